@@ -20,7 +20,7 @@ class Livelock(BaseException):
 
 
 C04_CLAUSES = ("rest_device_count", "rest_playfield_count", "rest_conservation", "range", "no_room")
-C05_CLAUSES = ("idle_or_broken", "request_served", "delivery", "retry_or_report")
+C05_CLAUSES = ("idle_or_broken", "request_served", "delivery", "retry_or_report", "save_requested")
 
 FAULTS = ("weak", "back_early", "back_late", "late", "stray")
 
@@ -49,7 +49,7 @@ def gen_topology(rng, level):
 
     slots = rng.randint(2, 6)
     balls = rng.randint(1, slots)
-    kind = rng.choice(["direct", "pulse", "pulse", "mech_coil", "mech_coil", "mech"])
+    kind = rng.choice(["direct", "pulse", "pulse", "mech_coil", "mech_coil", "mech", "mech"])
     devices = []
     trough_ej = "pulse"
     if level >= 1 and rng.random() < 0.15:
@@ -67,8 +67,10 @@ def gen_topology(rng, level):
         devices.append(_dev("bd_drain", 1, "pulse", "bd_trough", "drain", **t))
     logic = {}
     if rng.random() < 0.7:
-        logic["ball_save"] = {"active_time_s": rng.choice([2, 5, 15, 40]), "balls_to_save": rng.choice([1, 1, 2, -1]),
-                              "auto_launch": rng.random() < 0.7}
+        logic["ball_save"] = {"active_time_s": rng.choice([2, 5, 15, 40]),
+                              "balls_to_save": rng.choice([1, 1, 2, 3, -1, -1]),
+                              "auto_launch": rng.random() < 0.7,
+                              "eject_delay_ms": rng.choice([0, 0, 0, 1000, 3000, 8000])}
     lock = None
     if level >= 1 and rng.random() < 0.6 and balls >= 2:
         t = timing()
@@ -123,8 +125,29 @@ def gen_ops(rng, topo, n_ops, rests):
         kinds += ["ev:ev_save_enable"]
     if "ball_hold" in logic:
         kinds += ["ev:ev_release_one", "ev:ev_release_all"]
+    bursts = []
+    if "multiball" in logic and "ball_save" in logic:
+        bursts.append("mb_save")        # several balls in play, ball save active, drains close together
+    if "bd_plunger" in names:
+        bursts.append("held_lane")      # a request whose eject attempt may be held + a ball rolling into the lane
     rest_at = set(rng.sample(range(2, n_ops + 2), min(rests, n_ops))) if n_ops else set()
+    pure_mech = any(d["name"] == "bd_plunger" and d["ejector"] == "mech" for d in topo["devices"])
     for i in range(n_ops):
+        if bursts and rng.random() < (0.2 if pure_mech else 0.12):
+            b = rng.choice(bursts + (["held_lane"] if pure_mech else []))
+            if b == "mb_save":
+                ops.append(["ev", "ev_mb_start", rng.choice([0.2, 1.5, 4.0])])
+                ops.append(["wait", rng.choice([9.0, 25.0, 45.0])])
+                ops.append(["ev", "ev_save_enable", 0.2])
+                for _ in range(rng.randint(2, 3)):
+                    ops.append(["drain", rng.choice([0.03, 0.2, 0.6, 1.5, 4.0])])
+            else:
+                ops.append(["ev", rng.choice(["ev_req_plunger", "ev_mb_add", "ev_mb_start"]), rng.choice(DTS)])
+                ops.append(["lane", rng.choice([0.2, 0.6, 1.5])])
+                ops.append(["wait", rng.choice([1.5, 4.0, 9.0])])
+            if i + 2 in rest_at:
+                ops.append(["rest"])
+            continue
         k = rng.choice(kinds)
         dt = rng.choice(DTS)
         if k in ("drain", "lock", "vuk", "lane", "pf", "wait"):
@@ -146,6 +169,18 @@ def gen_phys(rng, topo, fault_level):
     phys = {"seed": rng.randrange(1 << 30), "transit": [0.05, rng.choice([0.3, 0.8, 1.4])],
             "pf_hit_prob": rng.choice([0.0, 0.5, 0.9, 1.0]),
             "plunge_delay": rng.choice([[0.3, 2.0], [0.5, 6.0], [2.0, 40.0]]), "faults": {}}
+    # handlers which hold balldevice_<dev>_ball_eject_attempt (a queue event) for a while, like diverters/mode code do
+    phys["holds"] = {}
+    by_name = {d["name"]: d for d in topo["devices"]}
+    for d in topo["devices"]:
+        if d["target"] == "playfield":
+            continue
+        into_mech = by_name[d["target"]]["ejector"] == "mech"       # a ball can rest there until the player acts
+        if rng.random() < (0.7 if into_mech else 0.3):
+            durations = [0, 2.0, 5.0, 10.0, 10.0] if into_mech else [0, 0, 0.5, 2.0, 5.0, 10.0]
+            phys["holds"][d["name"]] = [rng.choice(durations) for _ in range(rng.randint(3, 10))]
+    if any(d["ejector"] == "mech" for d in topo["devices"]) and rng.random() < 0.5:
+        phys["plunge_delay"] = [5.0, 40.0]
     if fault_level > 0:
         for d in topo["devices"]:
             if rng.random() < 0.6:
@@ -165,7 +200,10 @@ def shape_of(case):
     ops = "".join({"start": "S", "wait": "w", "drain": "D", "lock": "L", "vuk": "V", "lane": "l", "pf": "p", "ev": "e", "rest": "R"}.get(o[0], "?") for o in case["ops"])
     faults = ",".join("%s:%s" % (k[3:5], "".join(x[0] if x != "back_late" else "B" for x in v))
                       for k, v in sorted(case["phys"].get("faults", {}).items()))
-    return "%s|b%d|%s|%s" % (topo.get("kind", "?"), topo["balls"], ops[:40], faults[:30])
+    holds = "h" + "".join(k[3] for k in sorted(case["phys"].get("holds", {})))
+    bs = topo.get("logic", {}).get("ball_save")
+    save = "s%s%s" % (bs["balls_to_save"], "d" if bs.get("eject_delay_ms") else "") if bs else ""
+    return "%s|b%d|%s|%s|%s|%s" % (topo.get("kind", "?"), topo["balls"], ops[:40], faults[:30], holds, save)
 
 
 # ---------------------------------------------------------------------------------------------------------
@@ -201,6 +239,9 @@ class Monitors:
         self.livelocked = False
         self.mech_idle_ejects = {}
         self.idle_skips = {}
+        self.saves_announced = 0        # balls announced by ball_save_*_saving_ball
+        self.save_requests = 0          # balls the ball save then requested for the playfield (Playfield.add_ball)
+        self.save_log = []
         Monitors.current = self
         self._patch_classes()
         self._install_loop_hook()
@@ -221,10 +262,31 @@ class Monitors:
         o_lost_e = BallDevice.lost_ejected_ball
         o_lost_i = BallDevice.lost_incoming_ball
 
+        from mpf.devices.ball_save import BallSave
+        import sys as _sys
+
+        def _called_by_ball_save():
+            f = _sys._getframe(2)
+            for _ in range(4):
+                if f is None:
+                    return False
+                if isinstance(f.f_locals.get("self"), BallSave):
+                    return True
+                f = f.f_back
+            return False
+
         def outermost(fn, target_of):
             """Count a request only at the outermost public entry point (add_ball -> eject -> ... nest)."""
             def wrapper(self, *a, **kw):
                 mon = cls.current
+                if mon is not None and fn is o_add_ball:
+                    try:
+                        _t, n = target_of(self, *a, **kw)
+                        if n and n > 0 and _called_by_ball_save():
+                            mon.save_requests += n
+                            mon.save_log.append([round(mon.vm.now(), 3), "request", n])
+                    except Exception:   # noqa
+                        pass
                 if mon is not None and mon._depth == 0 and mon._replacement == 0:
                     try:
                         tname, n = target_of(self, *a, **kw)
@@ -306,11 +368,18 @@ class Monitors:
     # -- events ----------------------------------------------------------------------------------------------
     def _install_event_handlers(self):
         ev = self.m.events
+        if "ball_save" in self.topo.get("logic", {}):
+            ev.add_handler("ball_save_bs_saving_ball", self._on_saving_ball, priority=-10)
         for name in self.devices:
             ev.add_handler("balldevice_%s_ball_eject_success" % name, self._on_success, dev=name, priority=-10)
             ev.add_handler("balldevice_%s_ball_eject_failed" % name, self._on_failed, dev=name, priority=-10)
             ev.add_handler("balldevice_%s_broken" % name, self._on_broken, dev=name, priority=-10)
             ev.add_handler("balldevice_%s_ball_missing" % name, self._on_missing, dev=name, priority=-10)
+
+    def _on_saving_ball(self, balls=0, **kwargs):
+        if balls and balls > 0:
+            self.saves_announced += balls
+            self.save_log.append([round(self.vm.now(), 3), "saving_ball", balls])
 
     def _on_success(self, dev, **kwargs):
         self.obs["events_success"] += 1
@@ -454,6 +523,8 @@ def run_world_case(case, horizon):
         world = W.World(vm, topo, phys)
         mon = Monitors(vm, world, topo)
         crashed = None
+        for dev, seq in phys.get("holds", {}).items():
+            _install_hold(vm, mon, dev, list(seq))
         try:
             vm.advance(1.0)
             stop = False
@@ -517,6 +588,17 @@ def run_world_case(case, horizon):
         obs.update({"w_" + k: v for k, v in world.stats.items()})
         return {"violations": mon.viol, "clauses": mon.clauses, "obs": obs, "trace": trace[-6:],
                 "world_trace": list(world.trace)[-60:]}
+
+
+def _install_hold(vm, mon, dev, seq):
+    """Hold the queue event balldevice_<dev>_ball_eject_attempt for the next generated duration (virtual s)."""
+    def hold(queue, **kwargs):
+        d = seq.pop(0) if seq else 0
+        if d > 0:
+            mon.obs["eject_attempts_held"] = mon.obs.get("eject_attempts_held", 0) + 1
+            queue.wait()
+            vm.loop.call_later(d, queue.clear)
+    vm.machine.events.add_handler("balldevice_%s_ball_eject_attempt" % dev, hold)
 
 
 def _safe(fn):
@@ -588,6 +670,16 @@ def evaluate_rest(mon, world, rested, horizon, trace):
         return
     devs = mon.devices
     sources = {n: [s.name for s in d._source_devices] for n, d in devs.items()}
+
+    # every ball a ball save announced (ball_save_*_saving_ball) must have been requested for the playfield by now
+    # (eject_delay <= 8 s is far inside the horizon); the game keeps such a ball "in play"
+    if mon.saves_announced:
+        mon.clauses["save_requested"] += 1
+        if mon.save_requests < mon.saves_announced:
+            mon.violation("C05", "save_requested", "announced_ball_save_never_requested",
+                          {"balls_announced_saved": mon.saves_announced, "balls_requested_by_ball_save":
+                           mon.save_requests, "ball_save": mon.topo["logic"].get("ball_save"),
+                           "save_log": mon.save_log[-12:], "snapshot": snap})
 
     def upstream_has_ball(n, seen=None):
         seen = seen or set()
